@@ -112,7 +112,7 @@ static Plan gen_shape(u64 seed) {
         p.ops.push_back(o);
         if (r.chance(1, 6)) p.ops.push_back(mk("destroy_seg", {i64(r.below(8))}));
     }
-    if (r.chance(1, 2500) && !g_pool.info[font].big && !g_pool.info[font].cps.empty()) {
+    if (r.chance(1, 600) && !g_pool.info[font].big && !g_pool.info[font].cps.empty()) {
         // one very long text (more than 65536 characters): counters and indices that silently assume 16 bits
         Op o; o.kind = "probe_seg"; o.a = {0, 0, i64(1 << r.below(3)), i64(r.below(2)), 0};
         const std::vector<u32> &cps = g_pool.info[font].cps; u32 a = r.pick(cps), b = r.pick(cps); size_t n = 65600 + r.below(3000);
